@@ -30,6 +30,8 @@ type faultParams struct {
 	pre     bool   // the fault strikes before the call is issued
 	prior   int    // earlier stream resets of the failing nodes, each healed before the next event (history)
 	timers  bool   // a second adversary thread lets the armed back-off timers expire at any instant
+	second  bool   // a second client thread issues an RPC to each failing node while the fault strikes
+	close   bool   // queued faults: the manager is closed while the request still waits behind the busy sender
 }
 
 func (p faultParams) name() string {
@@ -39,6 +41,12 @@ func (p faultParams) name() string {
 	}
 	if p.timers {
 		h += "/timer-thread"
+	}
+	if p.second {
+		h += "/concurrent-rpc-to-failing-node"
+	}
+	if p.close {
+		h += "/then-close"
 	}
 	return fmt.Sprintf("fault/%s/n=%d/failing=%v/%s/thr=healthy+%d/late=%v/pre=%v%s", p.kind, p.n, p.failing, p.fault, p.extra, p.late, p.pre, h)
 }
@@ -88,8 +96,10 @@ func checkNodeErrors(name, key string, err error, wantFailing []int, handlerErr 
 	}
 }
 
-func faultScenario(p faultParams) func() {
+func faultScenario(p0 faultParams) func() {
 	return func() {
+		p := p0 // the oracle below adjusts its copy (then-close); every execution starts from the instance's parameters
+		p.failing = append([]int{}, p0.failing...)
 		o := world.Opts{N: p.n}
 		slowStream := strings.HasSuffix(p.fault, "-queued+slow-stream") // additionally a stream call with a blocked quorum function is pending on each failing node
 		queued := strings.HasSuffix(p.fault, "-queued") || slowStream   // the request is still queued behind a busy sender when the fault strikes
@@ -207,6 +217,12 @@ func faultScenario(p faultParams) func() {
 			w.Start(c)
 			mc.Quiesce()
 			strike()
+			if p.close {
+				// the receiver has failed the waiting call for the broken stream; now the node is closed while
+				// the call is still at the hand-off: it must not hear from this node a second time
+				mc.Quiesce()
+				w.Mgr.Close()
+			}
 		}
 		if slowStream {
 			// the back-off of the sender's retry passes while the stream call's quorum function still runs
@@ -228,6 +244,16 @@ func faultScenario(p faultParams) func() {
 		if p.timers {
 			mc.GoLow("timers", func() { mc.FireTimers(nil) })
 		}
+		if p.second {
+			// other traffic to the failing node at the time of the fault: its sender is busy with a
+			// request (and may re-create the stream) while the receiver deals with the failure
+			for _, f := range p.failing {
+				x := w.NewCall("GRPCCall")
+				x.Node = f
+				x.Ctx = context.Background()
+				w.Start(x)
+			}
+		}
 		mc.Quiesce()
 		if p.late {
 			w.Open("healthy")
@@ -241,6 +267,16 @@ func faultScenario(p faultParams) func() {
 			mc.Quiesce()
 		}
 		name, key := p.name(), classOf(p.kind)+"/"+p.fault
+		if p.close && p.late {
+			// the manager was closed before the healthy nodes answered: now every node has failed for this call
+			// (each exactly once), and there is no quorum to expect
+			p.failing = nil
+			for id := 1; id <= p.n; id++ {
+				p.failing = append(p.failing, id)
+			}
+			healthy, thr = 0, 1
+			p.extra = 1
+		}
 		// a failing node that received the request on a stream created after the fault is legitimately outstanding
 		outstanding := map[int]bool{}
 		if active && !strings.HasPrefix(p.fault, "crash") {
@@ -381,6 +417,16 @@ func faultInstances(tier string) []Instance {
 							}
 							p := faultParams{kind: kind, n: s.n, failing: s.failing, fault: f, extra: extra, late: late, pre: pre}
 							out = append(out, Instance{Name: p.name(), Bound: bound, Root: faultScenario(p)})
+							if strings.HasSuffix(f, "-queued") && len(s.failing) == 1 && ((s.n == 2 && extra == 1 && !late) || (s.n == 3 && extra == 0 && late)) {
+								pc := p
+								pc.close = true
+								out = append(out, Instance{Name: pc.name(), Bound: 1, Root: faultScenario(pc)})
+							}
+							if active && !pre && !late && s.n == 2 && len(s.failing) == 1 && extra == 1 && (f == "reset" || f == "restart") {
+								ps := p
+								ps.second = true
+								out = append(out, Instance{Name: ps.name(), Bound: 2, Root: faultScenario(ps)})
+							}
 							if bound == 2 && !thorough(tier) {
 								// the same with the back-off timers expiring at an instant of the explorer's choosing
 								pt := p
@@ -406,7 +452,7 @@ func faultInstances(tier string) []Instance {
 
 func init() {
 	register(&Check{ID: "C07",
-		Rule:        "fault enumeration: n in {2,3} x failing subset (minority, majority, all) x failure kind {down at creation, crash, stream reset, crash+restart, crash / reset while the request is still queued behind a sender blocked on a full window (also with a stream call whose quorum function is blocked pending on the failing node), handler error with code Unknown/NotFound/Internal/Unavailable/Canceled} x threshold {healthy, healthy+1} x healthy nodes answering before / after the fault x fault position {before the call, adversary fault thread placed by the explorer at every instant within the deviation bound} x history {none, two earlier stream resets of the failing node healed while idle} x {quorum call, async (+correctable, combo in thorough)}; armed back-off timers are fired to a horizon of 4 rounds before the progress oracle; oracle: success iff the healthy replies satisfy the quorum function, Incomplete names every failing node exactly once with the handler's status or an unavailable-type error, the quorum function never sees a failed node, no call is left waiting for a node whose connection broke (unless that node received the request on a stream created after the fault); an outcome is (instance, result class)",
+		Rule:        "fault enumeration: n in {2,3} x failing subset (minority, majority, all) x failure kind {down at creation, crash, stream reset, crash+restart, crash / reset while the request is still queued behind a sender blocked on a full window (also with a stream call whose quorum function is blocked pending on the failing node), handler error with code Unknown/NotFound/Internal/Unavailable/Canceled} x threshold {healthy, healthy+1} x healthy nodes answering before / after the fault x fault position {before the call, adversary fault thread placed by the explorer at every instant within the deviation bound} x history {none, two earlier stream resets of the failing node healed while idle} x other traffic {none, a concurrent RPC to the failing node} x {quorum call, async (+correctable, combo in thorough)}; armed back-off timers are fired to a horizon of 4 rounds before the progress oracle; oracle: success iff the healthy replies satisfy the quorum function, Incomplete names every failing node exactly once with the handler's status or an unavailable-type error, the quorum function never sees a failed node, no call is left waiting for a node whose connection broke (unless that node received the request on a stream created after the fault); an outcome is (instance, result class)",
 		Gen:         faultInstances,
 		Assumptions: []string{"a node with a connection fault never answers (its handler blocks), so it can only contribute an error", "crashes drop in-flight frames (fakegrpc); eventual completion is decided after firing the armed library timers 4 rounds"},
 	})
